@@ -193,7 +193,10 @@ def scenario_stress(chk, h, fl, d, rng, fam):
     P = rng.randint(1, 6) if fl == "asan" else 1
     T = rng.randint(1, 4) if fl == "asan" else rng.randint(2, 8)
     cache = rng.randint(1, 8)
-    maxjobs = rng.choice([-1, -1, -1, 1, 3, n])
+    many = fl == "asan" and rng.random() < 0.2
+    if many:  # more worker threads than any fixed-width bookkeeping (32/64 bits) in one process
+        P, T, n = 1, rng.choice([33, 40, 48, 65]), rng.choice([120, 200])
+    maxjobs = -1 if many else rng.choice([-1, -1, -1, 1, 3, n])
     failprob = rng.choice([0, 0, 0.2])
     initial = []
     for i in range(1, n + 1):
